@@ -4,6 +4,7 @@ import (
 	"fmt"
 	"go/token"
 	"go/types"
+	"os"
 	"reflect"
 	"sort"
 	"strings"
@@ -186,6 +187,7 @@ func runC06(r *Report) {
 	c08R6(r.sub("R7"))
 	c06R6(r)
 	bufferOnce(r, "R6")
+	bufferUseAfterGiveBack(r, "R6")
 }
 
 // writerTable extracts, for each case of Write's type switch, id / length / field order.
@@ -228,7 +230,11 @@ func writerTable(r *Report, write *ssa.Function) map[string]wireEntry {
 		}
 		e := wireEntry{ID: -1, Sub: -1, Length: -1, Pos: ta.Pos()}
 		// first choice: evaluate what the case puts on the wire (independent of which helper assembles the frame)
-		if lay := writeLayout(write, caseB); lay.Unknown == "" && len(lay.Items) >= 2 && lay.Items[0].Bits == 32 && lay.Items[1].Bits == 8 {
+		lay := writeLayout(write, caseB)
+		if os.Getenv("STORDEBUG") != "" {
+			fmt.Fprintf(os.Stderr, "layout %s: unknown=%q items=%d\n", name, lay.Unknown, len(lay.Items))
+		}
+		if lay.Unknown == "" && len(lay.Items) >= 2 && lay.Items[0].Bits == 32 && lay.Items[1].Bits == 8 {
 			if k, ok := constInt(lay.Items[0].Val); ok {
 				e.Length = k
 			}
@@ -587,11 +593,8 @@ func c06R6(r *Report) {
 		return g
 	}
 	eqGuard := func(b *ssa.BasicBlock, S int64, isSubject func(v ssa.Value) bool) bool {
-		for _, g := range guardsOf(b) {
-			op, x, y, ok := cmpFact(g)
-			if !ok || op != token.EQL {
-				continue
-			}
+		for _, e := range eqFacts(b) {
+			x, y := e[0], e[1]
 			if k, okk := constInt(y); okk && k == S && isSubject(stripIntConv(x)) {
 				return true
 			}
@@ -638,7 +641,11 @@ func c06R6(r *Report) {
 				returned := false
 				for _, ret := range returnsOf(f) {
 					for _, res := range ret.Results {
-						if ta, isTA := strip(res).(*ssa.TypeAssert); isTA && ta.X == ssa.Value(c) {
+						rv := strip(res)
+						if ex, isEx := rv.(*ssa.Extract); isEx && ex.Index == 0 {
+							rv = ex.Tuple // buf, ok := pool.Get().([]byte)
+						}
+						if ta, isTA := rv.(*ssa.TypeAssert); isTA && ta.X == ssa.Value(c) {
 							returned = true
 						}
 					}
